@@ -124,6 +124,8 @@ class ImplWorld:
             if t.__class__ is TypedTree and (op.get("kind") is not None or not op.get("nokind")):
                 kw["kind"] = op.get("kind") or "child"
             data = pool.objs[op["a"]]
+            if "nid" in op or "nid_ref" in op:
+                kw["node_id"] = resolve_nid(op, self)      # an explicit node_id (any spelling that int() accepts)
             if via in (None, "add", "add_child"):
                 tgt = self.node(op["t"], op["p"])
                 if not op["p"] and op.get("tree_api", True):
@@ -327,6 +329,17 @@ class ImplWorld:
             raise AssertionError(k)
 
 
+_BR_ROT = [0]
+
+
+def resolve_nid(op, impl):
+    if "nid_ref" in op:
+        path, spell = op["nid_ref"]
+        base = impl.node(op["t"], path).node_id
+        return {"int": base, "str": str(base), "float": float(base), "half": base + 0.5}[spell]
+    return op["nid"]
+
+
 def model_op(op, impl):
     """translate an implementation-level op to the driver's wire format.  The MEANING of the entry points is in
     the Lean model (`World.step`): the shortcuts (`via`, called on the node at `p` resp. `ref`), `del tree[key]`,
@@ -352,6 +365,20 @@ def model_op(op, impl):
                 m["did"] = key
     if op["op"] == "w.dead":
         return {"op": "w.obs"}       # no operation of the model: the observable state must stay as it is
+    if op["op"] == "w.add" and ("nid" in op or "nid_ref" in op):
+        # explicit node ids are outside the model (its identities are a counter).  The harness decides itself whether the id is
+        # acceptable: it must convert to a non-zero int that no node of the tree carries; otherwise the call must be refused and
+        # the state stay as it is (`w.obs`).  An acceptable id makes the call an ordinary add.
+        try:
+            nid = int(resolve_nid(op, impl))
+            bad = nid == 0 or any(n.node_id == nid for n in impl.trees[op["t"]])
+        except Exception:  # noqa
+            bad = True
+        op["_nid_refused"] = bad
+        if bad:
+            return {"op": "w.obs"}
+        m.pop("nid", None)
+        m.pop("nid_ref", None)
     if op["op"] == "w.addnode" and op.get("via") == "copy_to":
         m["kind"] = None   # copy_to() has no `kind` argument
     if op["op"] == "w.setdata" and op.get("via") == "rename":
@@ -518,7 +545,12 @@ def oracle_structure(impl, ti, bij, pool, driver):
                     res["index"].append(f"find_all(data_id={pool.canon_did(d)!r}) returns a node that is not in the tree")
     if tree.count_unique != len(by_data):
         res["index"].append(f"count_unique={tree.count_unique}, distinct data_ids found={len(by_data)}")
-    chk = driver.ask({"op": "w.chk", "tree": forest, "byId": by_id, "byData": by_data})
+    none_ids = [n for n in reachable if n.data_id is None]
+    if none_ids:
+        res["index"].append(f"node {none_ids[0]!r} is in the tree without a data_id (None): {len(none_ids)} such node(s)")
+        chk = {k: True for k in ("ids", "registry", "index", "sib")}
+    else:
+        chk = driver.ask({"op": "w.chk", "tree": forest, "byId": by_id, "byData": by_data})
     if "fail" in chk:
         res["ids"].append(f"driver: {chk}")
     else:
@@ -546,10 +578,14 @@ def oracle_structure(impl, ti, bij, pool, driver):
             yield c
             yield from below(c)
 
-    branches = [n for n in reachable if n.children][:6]
+    # (a rotating sample per observation: two branches, three ids - every observation of a history looks at other ones)
+    _BR_ROT[0] += 1
+    brs = [n for n in reachable if n.children]
+    branches = [brs[(_BR_ROT[0] + j * 3) % len(brs)] for j in range(min(2, len(brs)))] if brs else []
+    dsel = [dids[(_BR_ROT[0] * 2 + j) % len(dids)] for j in range(min(3, len(dids)))] if dids else []
     for n in branches:
         sub = list(below(n))
-        for d in dids[:8]:
+        for d in dsel:
             for add_self in (False, True):
                 want = ([n] if add_self and n.data_id == d else []) + [m for m in sub if m.data_id == d]
                 try:
@@ -567,7 +603,10 @@ def oracle_structure(impl, ti, bij, pool, driver):
             if ff is not w1:
                 res["index"].append(f"{n!r}.find_first(data_id={pool.canon_did(d)!r}) = {ff!r}, in the branch: {w1!r}")
     try:
-        tree._self_check()
+        # (the library's own consistency check insists on node_id == id(node): it is not applicable once the application
+        # has given a node an id of its own)
+        if all(n.node_id == id(n) for n in reachable):
+            tree._self_check()
     except Exception as e:  # noqa
         res["registry"].append(f"_self_check() raised {type(e).__name__}")
     return res
